@@ -1,9 +1,200 @@
-import Quanto.AwqBits
+/-
+Property C15 — AWQ layouts (`qbits/awq/packed.py`, `qbits/awq/qbits.py`): the v1 (int32) and
+v2 (int16) packings are lossless, `pack_v2` is the reference packer, the scaled zero-points give
+the integer zero-points back, the conversion to the AWQ representation and back is the identity,
+and the AWQ dequantizer agrees with the standard one up to rounding.
+
+Well-formed 4-bit matrix `t : T Nat` of size `[N, K]`: `t.shape = [N, K]`,
+`t.data.size = N * K`, `∀ i, i < N * K → t.get i < 16`.
+-/
+import Proofs.C15.Back
+import Proofs.C15.Denote
+import Proofs.C15.Sample
+
 namespace Quanto
 
-/-- the two AWQ order lists (regenerated from the source on every run) are inverse permutations -/
+/-- T0: the two AWQ order lists (regenerated from the source on every run) are inverse permutations -/
 theorem C15_orders_inverse :
     (List.range 8).all (fun m => Generated.awqOrder.getD (Generated.awqReverseOrder.getD m 8) 8 = m
       && Generated.awqReverseOrder.getD (Generated.awqOrder.getD m 8) 8 = m) = true := by decide
+
+/-- T1: `unpack(pack(t, reorder), reorder) = t` for every `[N, K]` matrix of 4-bit codes with
+`8 ∣ K`, with and without the AWQ column reordering. -/
+theorem C15_v1_roundtrip (t : T Nat) (N K : Nat) (hs : t.shape = [N, K])
+    (hsz : t.data.size = N * K) (h8 : 8 ∣ K) (hv : ∀ i, i < N * K → t.get i < 16) :
+    ∀ reorder, awqUnpackV1 reorder (awqPackV1 reorder t) = t :=
+  fun reorder => v1_roundtrip t N K hs hsz h8 hv reorder
+
+/-- T2: the position permutation of `pack_v2` is that of the reference packer — for every tensor
+(the intermediate views do not move data), no divisibility hypothesis needed. -/
+theorem C15_v2_reorder_is_reference (t : T Nat) : awqV2Reorder t = awqRefReorder t := rfl
+
+/-- T2: `pack_v2` is `external/awq/pack_intweight.py` (interleave 4, kstride 64). -/
+theorem C15_v2_is_reference (t : T Nat) : awqPackV2 t = awqPackRef t := rfl
+
+/-- T3: `unpack_v2(pack_v2(t)) = t` for every `[N, K]` matrix of 4-bit codes with `4 ∣ N`,
+`64 ∣ K`. -/
+theorem C15_v2_roundtrip (t : T Nat) (N K : Nat) (hs : t.shape = [N, K])
+    (hsz : t.data.size = N * K) (h4 : 4 ∣ N) (h64 : 64 ∣ K)
+    (hv : ∀ i, i < N * K → t.get i < 16) : awqUnpackV2 (awqPackV2 t) = t :=
+  v2_roundtrip t N K hs hsz h4 h64 hv
+
+/-- T3 for the reference packer. -/
+theorem C15_ref_roundtrip (t : T Nat) (N K : Nat) (hs : t.shape = [N, K])
+    (hsz : t.data.size = N * K) (h4 : 4 ∣ N) (h64 : 64 ∣ K)
+    (hv : ∀ i, i < N * K → t.get i < 16) : awqUnpackV2 (awqPackRef t) = t :=
+  v2_roundtrip t N K hs hsz h4 h64 hv
+
+/-- T4: the integer zero-point is recovered from the scaled, negated zero-point `fl(-z·s)`:
+every working format, representable positive scale, `|z| ≤ 15` (in particular `0 ≤ z ≤ 15`). -/
+theorem C15_zeropoint_recovered (F : Fmt) (hF : WorkFmt F) (s : Rat) (hpos : 0 < s)
+    (hrep : F.Rep s) (z : Int) (hz : |z| ≤ 15) (hfin : s * 15 ≤ F.maxFin) :
+    toInt8 ((F.div (F.mul (.fin (wrapInt8 (-z))) (.fin s)).neg (.fin s)).round) = z :=
+  zeropoint_recovered_work F hF s hrep hpos z hz hfin
+
+/-- T4 as requested (`0 ≤ z ≤ 15`). -/
+theorem C15_zeropoint_recovered_nonneg (F : Fmt) (hF : WorkFmt F) (s : Rat) (hpos : 0 < s)
+    (hrep : F.Rep s) (z : Int) (hz0 : 0 ≤ z) (hz1 : z ≤ 15) (hfin : s * 15 ≤ F.maxFin) :
+    toInt8 ((F.div (F.mul (.fin (wrapInt8 (-z))) (.fin s)).neg (.fin s)).round) = z :=
+  zeropoint_recovered_work F hF s hrep hpos z (abs_le.mpr ⟨by omega, hz1⟩) hfin
+
+/-- T4, float32 / float16: every int8 zero-point but -128, provided `z·s` does not overflow. -/
+theorem C15_zeropoint_recovered_int8 (F : Fmt) (hF : F = f32 ∨ F = f16) (s : Rat) (hpos : 0 < s)
+    (hrep : F.Rep s) (z : Int) (hz : |z| ≤ 127) (hfin : s * |(z : Rat)| ≤ F.maxFin) :
+    toInt8 ((F.div (F.mul (.fin (wrapInt8 (-z))) (.fin s)).neg (.fin s)).round) = z :=
+  zeropoint_recovered_int8 F hF s hrep hpos z hz hfin
+
+/-- the int8 range of T4 does not extend to bfloat16: `z = 127`, `s = 3/2` gives 126. -/
+theorem C15_counterexample_zeropoint_bf16 :
+    toInt8 ((bf16.div (bf16.mul (.fin (wrapInt8 (-127))) (.fin (3 / 2))).neg (.fin (3 / 2))).round)
+      = 126 := by
+  decide +kernel
+
+/-- T5: a standard 4-bit tensor quantized along axis 0 in groups of `gs` columns, converted to
+the AWQ representation and back (as repaired), is the tensor itself — whole structure. -/
+theorem C15_back_conversion (F : Fmt) (hF : WorkFmt F) (q : QBits) (N K gs : Nat)
+    (hbits : q.bits = 4) (haxis : q.axisFirst = true) (hgs : q.groupSize = some gs)
+    (hsize : q.size = [N, K]) (hgd : gs ∣ K) (h4 : 4 ∣ N) (h64 : 64 ∣ K)
+    (hds : q.data.shape = [N * K / gs, gs]) (hdsz : q.data.data.size = N * K)
+    (hcodes : ∀ i, i < N * K → q.data.get i < 16)
+    (hss : q.scale.shape = [N * K / gs, 1]) (hssz : q.scale.data.size = N * K / gs)
+    (hsv : ∀ i, i < N * K / gs →
+      ∃ s, q.scale.get i = .fin s ∧ 0 < s ∧ F.Rep s ∧ s * 15 ≤ F.maxFin)
+    (hzs : q.zero.shape = [N * K / gs, 1]) (hzsz : q.zero.data.size = N * K / gs)
+    (hzv : ∀ i, i < N * K / gs → 0 ≤ q.zero.get i ∧ q.zero.get i ≤ 15) :
+    (AwqBits.ofQBits F q).toQBits F 4 = q :=
+  back_conversion F hF q N K gs hbits haxis hgs hsize hgd h4 h64 hds hdsz hcodes hss hssz hsv hzs
+    hzsz (fun i hi => abs_le.mpr ⟨by have := (hzv i hi).1; omega, (hzv i hi).2⟩)
+
+/-- T6 (bound altered, see the report): one element, code `c < 16`, zero-point `0 ≤ z ≤ 15`,
+scale `s > 0`, all intermediate values finite.  `ya` is what `AWQBitsDequantizer` computes
+(`s·c` rounded, plus the stored `fl(-z·s)`, rounded), `ys` what `QBitsDequantizer` computes
+(`s·(c - z)` rounded). -/
+theorem C15_denotes_same (F : Fmt) (hF : WorkFmt F) (s : Rat) (hpos : 0 < s) (c : Nat)
+    (hc : c < 16) (z : Int) (hz0 : 0 ≤ z) (hz1 : z ≤ 15) (p1 p2 ya ys : Rat)
+    (hp1 : F.mul (.fin s) (.fin (c : Rat)) = .fin p1)
+    (hp2 : F.mul (.fin (wrapInt8 (-z))) (.fin s) = .fin p2)
+    (hya : F.add (.fin p1) (.fin p2) = .fin ya)
+    (hys : affDeq F c (.fin s) z = .fin ys) :
+    |ya - ys| ≤ F.u * (s * c + s * z) * (1 + F.u) + 2 * F.u * |s * ((c : Rat) - z)| +
+      (4 + 2 * F.u) * F.eta := by
+  obtain ⟨t1, t2⟩ := awq_terms F s c z hz0 (by omega)
+  rw [t1] at hp1; rw [t2] at hp2
+  rw [std_term F s c z hc hz0 hz1] at hys
+  have e1 := fl_err F hF _ _ hp1
+  have e2 := fl_err F hF _ _ hp2
+  have e3 := fl_err F hF _ _ (show F.fl (.fin (p1 + p2)) = .fin ya from hya)
+  have e4 := fl_err F hF _ _ hys
+  have hc0 : (0 : Rat) ≤ (c : Rat) := Nat.cast_nonneg c
+  have hz0' : (0 : Rat) ≤ (z : Rat) := by exact_mod_cast hz0
+  rw [abs_of_nonneg (mul_nonneg hpos.le hc0)] at e1
+  have ez : s * ((-z : Int) : Rat) = -((z : Rat) * s) := by push_cast; ring
+  rw [ez, abs_neg, abs_of_nonneg (mul_nonneg hz0' hpos.le)] at e2
+  have ed : (((c : Int) - z : Int) : Rat) = (c : Rat) - (z : Rat) := by push_cast; ring
+  rw [ed] at e4
+  have := denote_core F.u F.eta s c z p1 p2 ya ys F.u_nonneg F.eta
+    e1 (by rw [mul_comm s (z : Rat)]; exact e2) e3 e4
+  linarith
+
+/-- T6 with a representable scale: the two products are rounded with a purely relative error. -/
+theorem C15_denotes_same_rep (F : Fmt) (hF : WorkFmt F) (s : Rat) (hpos : 0 < s)
+    (hrep : F.Rep s) (c : Nat) (hc : c < 16) (z : Int) (hz0 : 0 ≤ z) (hz1 : z ≤ 15)
+    (p1 p2 ya ys : Rat)
+    (hp1 : F.mul (.fin s) (.fin (c : Rat)) = .fin p1)
+    (hp2 : F.mul (.fin (wrapInt8 (-z))) (.fin s) = .fin p2)
+    (hya : F.add (.fin p1) (.fin p2) = .fin ya)
+    (hys : affDeq F c (.fin s) z = .fin ys) :
+    |ya - ys| ≤ F.u * (s * c + s * z) * (1 + F.u) + 2 * F.u * |s * ((c : Rat) - z)| +
+      2 * F.eta := by
+  obtain ⟨t1, t2⟩ := awq_terms F s c z hz0 (by omega)
+  rw [t1] at hp1; rw [t2] at hp2
+  rw [std_term F s c z hc hz0 hz1] at hys
+  have e1 := mul_int_err F hF s hrep hpos (c : Int) p1 (by exact_mod_cast hp1)
+  have e2 := mul_int_err F hF s hrep hpos (-z) p2 hp2
+  have e3 := fl_err F hF _ _ (show F.fl (.fin (p1 + p2)) = .fin ya from hya)
+  have e4 := fl_err F hF _ _ hys
+  have hc0 : (0 : Rat) ≤ (c : Rat) := Nat.cast_nonneg c
+  have hz0' : (0 : Rat) ≤ (z : Rat) := by exact_mod_cast hz0
+  have ec : (((c : Int) : Int) : Rat) = (c : Rat) := by push_cast; rfl
+  rw [ec, abs_of_nonneg hc0] at e1
+  have ez : ((-z : Int) : Rat) = -(z : Rat) := by push_cast; rfl
+  rw [ez, abs_neg, abs_of_nonneg hz0', mul_neg] at e2
+  have ed : (((c : Int) - z : Int) : Rat) = (c : Rat) - (z : Rat) := by push_cast; ring
+  rw [ed] at e4
+  have := denote_core F.u F.eta s c z p1 p2 ya ys F.u_nonneg 0
+    (by linarith) (by rw [mul_comm (z : Rat) s]; linarith) e3 e4
+  linarith
+
+/-- T7 (the repaired defect): the ORIGINAL `qbits_tensor` handed `QBitsTensor` the ungrouped
+`[4, 256]` payload where the grouped layout `[4·256/128, 128] = [8, 128]` is required. -/
+theorem C15_counterexample_back_ungrouped (p : T Nat) (s z : T FV) :
+    (⟨[4, 256], 128, p, s, z⟩ : AwqBits).origBackDataShape ≠ [4 * 256 / 128, 128] := by
+  show ([4, 256] : List Nat) ≠ [4 * 256 / 128, 128]
+  decide
+
+/-! ### non-vacuity: concrete instances satisfy the hypotheses
+(`c15Sample` is the `[4, 64]` matrix with codes `i % 16`, see `Proofs/C15/Sample.lean`) -/
+
+/-- T1 on the sample, both orders -/
+example : ∀ reorder, awqUnpackV1 reorder (awqPackV1 reorder c15Sample) = c15Sample :=
+  C15_v1_roundtrip c15Sample 4 64 rfl (by simp [c15Sample]) (by decide) c15Sample_lt
+
+/-- T3 on the sample -/
+example : awqUnpackV2 (awqPackV2 c15Sample) = c15Sample :=
+  C15_v2_roundtrip c15Sample 4 64 rfl (by simp [c15Sample]) (by decide) (by decide) c15Sample_lt
+
+/-- T4 at float16: `s = 1/4`, `z = 7` -/
+example : toInt8 ((f16.div (f16.mul (.fin (wrapInt8 (-7))) (.fin (1 / 4))).neg (.fin (1 / 4))).round)
+    = 7 :=
+  C15_zeropoint_recovered_nonneg f16 (by simp [WorkFmt]) (1 / 4) (by norm_num)
+    (repB_sound f16 _ (by decide +kernel)) 7 (by decide) (by decide)
+    (by have := work_maxFin_ge f16 (by simp); linarith)
+
+/-- T5 at float16 on the sample: one group of 64 per row, scales 1/4, zero-points 7 -/
+example : (AwqBits.ofQBits f16 ⟨4, true, some 64, [4, 64], c15Sample, ⟨[4, 1], #[.fin (1 / 4), .fin (1 / 4), .fin (1 / 4), .fin (1 / 4)]⟩,
+      ⟨[4, 1], #[7, 7, 7, 7]⟩⟩).toQBits f16 4 =
+    ⟨4, true, some 64, [4, 64], c15Sample, ⟨[4, 1], #[.fin (1 / 4), .fin (1 / 4), .fin (1 / 4), .fin (1 / 4)]⟩,
+      ⟨[4, 1], #[7, 7, 7, 7]⟩⟩ := by
+  refine C15_back_conversion f16 (by simp [WorkFmt]) _ 4 64 64 rfl rfl rfl rfl (by decide) (by decide)
+    (by decide) rfl (by simp [c15Sample]) c15Sample_lt rfl rfl ?_ rfl rfl ?_
+  · intro i hi
+    have hi' : i < 4 := hi
+    refine ⟨1 / 4, ?_, by norm_num, repB_sound f16 _ (by decide +kernel),
+      by have := work_maxFin_ge f16 (by simp); linarith⟩
+    have : i = 0 ∨ i = 1 ∨ i = 2 ∨ i = 3 := by omega
+    rcases this with rfl | rfl | rfl | rfl <;> rfl
+  · intro i hi
+    have hi' : i < 4 := hi
+    have : i = 0 ∨ i = 1 ∨ i = 2 ∨ i = 3 := by omega
+    rcases this with rfl | rfl | rfl | rfl <;> decide
+
+/-- T6 at float16, `s = 5464`, `c = 1`, `z = 6`: the two dequantizers differ by 32 (two units in
+the last place of the result); the hypotheses of T6 hold. -/
+example :
+    f16.mul (.fin 5464) (.fin ((1 : Nat) : Rat)) = .fin 5464 ∧
+    f16.mul (.fin (wrapInt8 (-6))) (.fin 5464) = .fin (-32768) ∧
+    f16.add (.fin 5464) (.fin (-32768)) = .fin (-27296) ∧
+    affDeq f16 1 (.fin 5464) 6 = .fin (-27328) := by
+  decide +kernel
 
 end Quanto
